@@ -27,11 +27,11 @@ GEN_AST = '_Z7gen_astR8GenState'
 # and every library precondition of the container model that such a function violates
 UB_PAT = r'^((_Z\d|_ZN8GenState|_ZN16FunctionGenState|_ZN4Theo3gen)\S* |(_ZNSt|_ZNKSt|_ZSt)\S*\.assertion\.\d+ ministl: .*\((UB|throws)\))'
 SOLVER = ['--sat-solver', 'cadical', '--object-bits', '12', '--slice-formula']
-# recursion of the traversal: deepest on the trees of the harness is 3 (two parameters / arguments, a call as argument); a tighter bound than the loop
+# recursion of the traversal: the harness trees need two nested recursive calls (two parameters / arguments); a tighter bound than the loop
 # bound keeps the query small when a mutated generator follows a garbage pointer (then reported as bound exceeded next to the violation)
 # (CBMC rejects an --unwindset entry for a function that is not part of the program, so each family names the ones it reaches)
 R_ARGS, R_CALLARGS, R_VALUE = '_Z12dispatchArgsR8GenStatePN4Theo4NodeE', '_Z16dispatchCallArgsR8GenStatePN4Theo4NodeERSt6vectorIiE', '_Z13dispatchValueR8GenStatePN4Theo4NodeEi'
-RECURSION = {R_ARGS: 5, R_CALLARGS: 5, R_VALUE: 4, DISPATCH_VOID: 4}
+RECURSION = {R_ARGS: 3, R_CALLARGS: 3, R_VALUE: 3, DISPATCH_VOID: 2}
 WHOLE = ['--no-array-field-sensitivity']     # strings as whole arrays (cheaper where names are symbolic); default: per-element (keeps constants)
 
 
